@@ -9,6 +9,7 @@ def run(tier='quick', seed=0, nproc=16):
   res.append(common.guard(c01.callable_kinds_case))
   res.append(common.guard(c01.nested_containers_case))
   res.append(common.guard(c01.equal_leaves_case))
+  res.append(common.guard(c01.kwargs_order_case))
   return common.merge(
       res, 'layerb.c01',
       rule='exhaustive: signature shape (<=%d params, every default pattern) x every subset of '
